@@ -117,8 +117,25 @@ UNIT = {
     ],
     'may_throw_value': ['node_headers__getFreeNodeHandle', 'node_headers__linkNode', 'node_storage__makeNode'],
     'may_throw_void': ['node_headers__unlinkNode', 'unique_table__add', 'node_headers__setNodeAddress', 'node_storage__unlinkDownAndRecycle'],
-    'stubs': [],
-    'assumptions': [],
+    'stubs': [
+        'unique_table::find/add/remove: ghost-recorded events (chain shape and rehash are not verified)',
+        'node_headers::getFreeNodeHandle/setNodeLevel/setNodeAddress/getNodeAddress/deactivate/linkNode/unlinkNode: ghost-recorded events; real bodies under contract in U-hdr',
+        'node_storage::makeNode / unlinkDownAndRecycle: ghost-recorded; real bodies (simple_separated) partly under contract in U-codec',
+        'unpacked_node::Recycle/sort/computeHash: ghost-recorded; computeHash yields the ghost hash value',
+        'forest::getLevelSize (>= 2), getVarByLevel, hashNode, logger, node_marker: ghost values',
+        'terminal rounding helpers (termprec != 0) are declared with precondition false: that branch is outside the contract',
+    ],
+    'assumptions': [
+        'reference-count configuration (reachable == NULL, useReferenceCounts); termprec == 0; transparent_node == 0',
+        'point-wise preconditions on the scratch node: the ghost entries carry edge values of the labelling type; sparse scratch nodes list non-zero children only (at the ghost positions); size <= level size',
+        'completeness of redundant / identity elimination (every such node IS eliminated) is a counting fact over all children and is not proved; soundness of each elimination is',
+        'edge_value::operator== may raise MISCELLANEOUS on a malformed type tag of an entry other than the ghost ones',
+    ],
+    'unverified_surroundings': {
+        'C01': ['unique_table.cc (chains, rehash on expand/shrink)', 'storage/simple.cc areDuplicates', 'unpacked_node.cc computeHash', 'every operation that calls createReducedNode'],
+        'C02': ['forest.cc _makeRedundantsTo/_makeIdentitiesTo/modifyReducedNodeInPlace', 'forests/mtmdd.cc, mtmxd.cc swaps', 'node count bookkeeping over histories'],
+        'C06': ['link balance of every operation (histories)', 'forest root-edge registry', 'leak freedom after cache clears'],
+    },
     'jobs': [
         job('normalize_evplus', 'normalize_evplus_long', [], loops=2),
         job('normalize_evstar', 'normalize_evstar_float', [], loops=2, props=['C01', 'C02']),
